@@ -67,6 +67,13 @@ class Loop:
         self.ensures = list(ensures)
 
 
+def _with_probe(L, pid_, item):
+    import copy
+    L2 = copy.copy(L)
+    L2.head = 'proof { if crate::vx_probe(%d) { assert(false); } } // PROBE.%d\n' % (pid_, pid_) + (L.head or '')
+    return L2
+
+
 class Fn:
     def __init__(self, name, scope=None, ret=None, requires=(), ensures=(), attrs=(), mode='body',
                  rewrites=(), loops=None, inserts=(), head='', tail='', decreases=None, opens_invariants=None,
@@ -227,7 +234,9 @@ DROP_ATTR_RX = re.compile(r'^\s*#\[(inline|allow\(|doc|must_use|cfg_attr)[^\n]*\
 
 
 class Emitter:
-    def __init__(self, repo):
+    def __init__(self, repo, probe=False):
+        self.probe = probe     # vacuity probes: an `assert(false)` behind every requires / loop invariant; each must FAIL
+        self.probes = []       # (probe id, item, where)
         self.repo = repo
         self.chunks = []
         self.log = []          # what was dropped / rewritten, for the evidence file
@@ -425,6 +434,10 @@ class Emitter:
             return
 
         # ---- body head / tail
+        if self.probe:
+            pid_ = len(self.probes)
+            self.probes.append((pid_, item, 'function entry (behind requires)'))
+            ins(bo + 1, [Chunk('\nproof { if crate::vx_probe(%d) { assert(false); } }\n' % pid_, 'probe', tag='PROBE.%d' % pid_, item=item)], seq=-50)
         if f.head:
             ins(bo + 1, [sup('\n' + f.head + '\n')])
         if f.tail:
@@ -452,6 +465,10 @@ class Emitter:
                     inv.append(Chunk('            %s,\n' % t.strip(), 'clause', tag=tag, item=item))
             if L.decreases:
                 inv.append(sup('\n        decreases %s,\n' % L.decreases))
+            if self.probe and (L.invariants or L.invariant_except_break):
+                pid_ = len(self.probes)
+                self.probes.append((pid_, item, 'loop #%d body (behind invariants)' % ordinal))
+                L = _with_probe(L, pid_, item)
             if L.pre:
                 ins(rs.line_start(text, lp['kw_idx']), [sup(L.pre + '\n')])
             if L.post:
